@@ -2,6 +2,7 @@ package c10
 
 import (
 	"context"
+	"encoding/json"
 	"fmt"
 	"os"
 	"path/filepath"
@@ -23,6 +24,7 @@ import (
 
 type cliCounters struct {
 	commands, depGraphExact, depGraphCycle, lsCompared, buildCompared, lsVsBuild, dupDemands, missDemands, exit100 atomic.Int64
+	depGraphJSON, depGraphJSONSeenThenMore                                                                         atomic.Int64
 }
 
 func writeTree(dir string, files map[string]string) error {
@@ -145,6 +147,8 @@ func (ck *checker) familyCLI(maxN int) {
 	r.Set("cli_commands", cc.commands.Load())
 	r.Set("cli_dep_graph_exact", cc.depGraphExact.Load())
 	r.Set("cli_dep_graph_cycle_errors_demanded", cc.depGraphCycle.Load())
+	r.Set("cli_dep_graph_json_compared", cc.depGraphJSON.Load())
+	r.Set("cli_dep_graph_json_module_with_an_earlier_listed_dep_followed_by_another", cc.depGraphJSONSeenThenMore.Load())
 	r.Set("cli_lsfiles_compared", cc.lsCompared.Load())
 	r.Set("cli_build_compared", cc.buildCompared.Load())
 	r.Set("cli_lsfiles_vs_build_compared", cc.lsVsBuild.Load())
@@ -152,7 +156,8 @@ func (ck *checker) familyCLI(maxN int) {
 	r.Set("cli_missing_import_demands", cc.missDemands.Load())
 	r.Set("cli_exit_100_observed", cc.exit100.Load())
 	neverExercised(r, map[string]int64{"cli dep graph": cc.depGraphExact.Load(), "cli dep graph cycle": cc.depGraphCycle.Load(),
-		"cli ls-files vs build": cc.lsVsBuild.Load(), "cli duplicate": cc.dupDemands.Load(), "cli missing import exit 100": cc.exit100.Load()})
+		"cli ls-files vs build": cc.lsVsBuild.Load(), "cli dep graph json": cc.depGraphJSON.Load(),
+		"cli dep graph json: a module whose first dep is listed earlier and that has a further dep": cc.depGraphJSONSeenThenMore.Load(), "cli duplicate": cc.dupDemands.Load(), "cli missing import exit 100": cc.exit100.Load()})
 }
 
 // cliArgs maps a target to the CLI input and flags.
@@ -280,6 +285,7 @@ func (ck *checker) checkCLI(ctx context.Context, cc *cliCounters, b *Built, dir 
 			} else if !reflect.DeepEqual(got.Edges, want.Edges) {
 				ck.cliViolate("cli/dep-graph/wrong-edges", "`buf dep graph` edge set differs from the import edges", b, t, res, Case{Observed: got, Expected: want})
 			}
+			ck.checkDepGraphJSON(cc, b, t, want, runCLI("dep", "graph", input, "--format", "json"))
 		}
 	}
 
@@ -367,5 +373,107 @@ func (ck *checker) checkCLI(ctx context.Context, cc *cliCounters, b *Built, dir 
 		if !reflect.DeepEqual(lsPaths, gotPaths) {
 			ck.cliViolate("cli/ls-files-vs-build/differ", "`buf ls-files --include-imports` and `buf build` disagree on the file list", b, t, ls, Case{Observed: lsPaths, Expected: gotPaths})
 		}
+	}
+}
+
+// jsonModule is one entry of `buf dep graph --format json`.
+type jsonModule struct {
+	Name   string       `json:"name"`
+	Commit string       `json:"commit"`
+	Digest string       `json:"digest"`
+	Deps   []jsonModule `json:"deps"`
+	Local  bool         `json:"local"`
+}
+
+// checkDepGraphJSON: `buf dep graph --format json` prints an array of the modules of the graph; the names in the
+// `deps` of every entry, at every nesting depth, must be exactly the DIRECT dependencies of that module in the
+// reference graph (= the DOT edges out of it). All modules of the CLI family are present locally, so every entry
+// is local and has no commit (a module present locally beats the pinned commit of its name).
+func (ck *checker) checkDepGraphJSON(cc *cliCounters, b *Built, t Target, want *DAGObs, res bufx.CLIResult) {
+	if res.ExitCode != 0 {
+		ck.cliViolate("cli/dep-graph-json/error", "`buf dep graph --format json` failed on an acyclic closure", b, t, res, Case{Expected: want})
+		return
+	}
+	var mods []jsonModule
+	if err := json.Unmarshal([]byte(res.Stdout), &mods); err != nil {
+		ck.cliViolate("cli/dep-graph-json/not-json", "`buf dep graph --format json` did not print a JSON array of modules: "+err.Error(), b, t, res, Case{Observed: res.Stdout})
+		return
+	}
+	cc.depGraphJSON.Add(1)
+	direct := map[string][]string{}
+	for _, n := range want.Nodes {
+		direct[n] = []string{}
+	}
+	for _, e := range want.Edges {
+		direct[e[0]] = append(direct[e[0]], e[1])
+	}
+	// non-vacuity of the shape "a dep that was listed earlier, followed by a further dep": some module has two
+	// or more direct deps and the first of them (by name) sorts before the module itself, so that it was
+	// emitted as a top-level module of its own before
+	for n, ds := range direct {
+		if len(ds) >= 2 && sortedStrings(ds)[0] < n {
+			cc.depGraphJSONSeenThenMore.Add(1)
+			break
+		}
+	}
+	var names []string
+	for _, m := range mods {
+		names = append(names, m.Name)
+	}
+	sort.Strings(names)
+	if !reflect.DeepEqual(names, want.Nodes) {
+		ck.cliViolate("cli/dep-graph-json/wrong-nodes", "`buf dep graph --format json` module list differs from targets plus reachable", b, t, res, Case{Observed: names, Expected: want.Nodes})
+		return
+	}
+	reported := map[string]bool{}
+	var walk func(m jsonModule, depth int)
+	walk = func(m jsonModule, depth int) {
+		if depth > 8 {
+			return
+		}
+		if (!m.Local || m.Commit != "") && !reported["local"] {
+			reported["local"] = true
+			ck.cliViolate("cli/dep-graph-json/wrong-local-or-commit", "`buf dep graph --format json` shows a module that is present locally as remote / at a commit", b, t, res, Case{Module: m.Name, Observed: res.Stdout})
+		}
+		wantDeps, known := direct[m.Name]
+		if !known {
+			if !reported["unknown"] {
+				reported["unknown"] = true
+				ck.cliViolate("cli/dep-graph-json/deps-extra", "`buf dep graph --format json` lists a module that is not in the closure of the targets", b, t, res, Case{Module: m.Name, Observed: res.Stdout})
+			}
+			return
+		}
+		got := map[string]bool{}
+		for _, d := range m.Deps {
+			got[d.Name] = true
+		}
+		missing, extra := false, len(got) > len(wantDeps)
+		for _, d := range wantDeps {
+			if !got[d] {
+				missing = true
+			}
+		}
+		if len(got) == len(wantDeps) && missing {
+			extra = true
+		}
+		gotNames := make([]string, 0, len(got))
+		for d := range got {
+			gotNames = append(gotNames, d)
+		}
+		sort.Strings(gotNames)
+		switch {
+		case missing && !reported["missing"]:
+			reported["missing"] = true
+			ck.cliViolate("cli/dep-graph-json/deps-missing", "`buf dep graph --format json`: the deps of a module lack one of its direct dependencies (the dot output has the edge)", b, t, res, Case{Module: m.Name, Observed: gotNames, Expected: sortedStrings(wantDeps)})
+		case extra && !missing && !reported["extra"]:
+			reported["extra"] = true
+			ck.cliViolate("cli/dep-graph-json/deps-extra", "`buf dep graph --format json`: the deps of a module hold a module it does not import directly", b, t, res, Case{Module: m.Name, Observed: gotNames, Expected: sortedStrings(wantDeps)})
+		}
+		for _, d := range m.Deps {
+			walk(d, depth+1)
+		}
+	}
+	for _, m := range mods {
+		walk(m, 0)
 	}
 }
